@@ -585,3 +585,20 @@ def from_iter_summary(facts):
         res.append({"kind": o.kind, "log": dom.log(o.store), "pc": dom.pc(o.store), "value": o.value, "site": o.site})
     return fi, res
 
+
+def update_summary(facts):
+    """Summary of Compound::update(self, unit, power, prefix): [{kind, value, log, pc, cells}]."""
+    body = facts.fn("compound::Compound::update")
+    if body is None:
+        return None, None
+    dom = UnitDomain(facts)
+    it = core.Interp(facts, dom, budget=60000)
+    selfv = Agg("adt", "compound::Compound", 0, "Compound", (Sym("names"),))
+    st = {(0, 0): selfv}
+    outs = it.run(body, [Ref(0, 0), Sym("unit"), Sym("power"), Sym("prefix")], st)
+    res = []
+    for o in outs:
+        cells = {k: v for k, v in o.store.items() if isinstance(k, tuple) and len(k) == 2 and k[0] == 0 and isinstance(k[1], int) and k[1] >= 700}
+        res.append({"kind": o.kind, "value": o.value, "log": dom.log(o.store), "pc": dom.pc(o.store), "cells": cells, "site": o.site})
+    return body, res
+
